@@ -77,9 +77,8 @@ def ruleSerRT (a : TAttrs) : String := ruleSerRTWith hashesNoOutput a
 def lookupPath (files : List (String × Tree)) (p : String) : Option String :=
   files.findSome? fun e =>
     match e.2 with
-    | .file c => if e.1 = p then some c else none
-    | .fileOpt c _ => if e.1 = p then some c else none
     | .dir es => es.findSome? fun f => if e.1 ++ "/" ++ f.1 = p then some f.2 else none
+    | t => if e.1 = p then some (BuildE2E.render t) else none     -- every other tree is one file: its bytes
 
 def cmdOk (c : TCmd) (files : List (String × Tree)) : Bool :=
   match c with
